@@ -160,11 +160,14 @@ func (og *OverlapGenerator) generateCharacterOverlap(text string) string {
 	// If preserving words, find the next word boundary
 	if og.config.PreserveWords {
 		// Move forward to find start of a word
-		for start < len(text) && !unicode.IsSpace(rune(text[start])) {
+		// (bytes are compared with ASCII whitespace only: converting a single byte to
+		// a rune would read the UTF-8 continuation bytes 0x85 and 0xA0 as NEL and
+		// NBSP and start the overlap in the middle of a character such as "校")
+		for start < len(text) && !isASCIISpace(text[start]) {
 			start++
 		}
 		// Skip whitespace
-		for start < len(text) && unicode.IsSpace(rune(text[start])) {
+		for start < len(text) && isASCIISpace(text[start]) {
 			start++
 		}
 	}
@@ -174,6 +177,11 @@ func (og *OverlapGenerator) generateCharacterOverlap(text string) string {
 	}
 
 	return strings.TrimSpace(text[start:])
+}
+
+// isASCIISpace reports whether b is an ASCII whitespace byte.
+func isASCIISpace(b byte) bool {
+	return b == ' ' || b == '\t' || b == '\n' || b == '\r' || b == '\v' || b == '\f'
 }
 
 // generateSentenceOverlap extracts sentence-based overlap from the end of text
